@@ -268,16 +268,11 @@ where
 
 /-! ### Structural validity (the part of `StructValid` the comparison functions depend on) -/
 
-def Category.rank : Category → Nat
-  | .namespace => 0
-  | .attribute => 1
-  | .normal => 2
-
-/-- Children come as namespaces, then attributes, then normal nodes. -/
-def kidsOrdered : List Tree → Bool
-  | [] => true
-  | [_] => true
-  | a :: b :: rest => decide (a.value.category.rank ≤ b.value.category.rank) && kidsOrdered (b :: rest)
+/-- Children come as namespaces, then attributes, then normal nodes: after skipping the leading
+    namespace nodes and then the attribute nodes, only normal nodes remain. -/
+def kidsOrdered (ks : List Tree) : Bool :=
+  ((ks.dropWhile (fun k => k.value.category == .namespace)).dropWhile
+    (fun k => k.value.category == .attribute)).all (fun k => k.value.isNormal)
 
 /-- No two attribute children with the same name. -/
 def attrNamesNodup (ks : List Tree) : Bool := decide ((attrPairs ks).map (·.1)).Nodup
